@@ -1,8 +1,8 @@
 import Driver.Proto
-import PqModel.Bloom
+import PqModel.BloomWriter
 
 namespace Driver.Ops.C07
-open Driver PqModel.XxHash PqModel.Bloom
+open Driver PqModel.XxHash PqModel.Bloom PqModel.BloomWriter
 
 def showHashes (hs : List UInt64) : String := showList (fun h => toString h.toNat) hs
 
@@ -43,6 +43,20 @@ def parseValue? (k : Kind) (s : String) : Option Value :=
 /-- pages separated by `;`, values by `,`; `-` = empty page -/
 def parsePages? (k : Kind) (s : String) : Option (List (List Value)) :=
   (s.splitOn ";").mapM (fun p => parseList? (parseValue? k) p)
+
+/-- writer pages: `i:<values>` (dictionary-indexed) or `p:<values>`, separated by `;`; `-` = no page -/
+def parseWPages? (k : Kind) (s : String) : Option (List WPage) :=
+  if s == "-" then some [] else
+  (s.splitOn ";").mapM (fun p =>
+    if p.startsWith "i:" then (parseList? (parseValue? k) (p.drop 2).toString).map (fun vs => { values := vs, indexed := true })
+    else if p.startsWith "p:" then (parseList? (parseValue? k) (p.drop 2).toString).map (fun vs => { values := vs, indexed := false })
+    else none)
+
+/-- dictionary: `n` = none, `d:<values>` -/
+def parseDict? (k : Kind) (s : String) : Option (Option (List Value)) :=
+  if s == "n" then some none
+  else if s.startsWith "d:" then (parseList? (parseValue? k) (s.drop 2).toString).map some
+  else none
 
 def pagesOk (k : Kind) (pages : List (List Value)) : Bool :=
   pages.all (fun p => p.all (fun v => v.kindOk k))
@@ -89,10 +103,6 @@ def handle (toks : List String) : Option String :=
       if bs.length % 32 ≠ 0 ∨ bs.length = 0 then "err size"
       else s!"ok {showList (fun h => if checkBytes bs h then "1" else "0") hs}"
     | _, _ => "bad-op"
-  | ["bloom.enc", "booleanfixed", n, raw] => some <|
-    match parseNat? n, parseHex? raw with
-    | some n, some bits => s!"ok {toHex (filterBytes (build n ((hashWriteBoolFixed bits).map UInt64.toBitVec)))}"
-    | _, _ => "bad-op"
   -- bloom.enc <kind> <numBlocks> <raw page data> [<offsets>] -> filter bytes after one Encode* call
   | ["bloom.enc", k, n, raw] => some <|
     match parseKind? k, parseNat? n with
@@ -108,14 +118,34 @@ def handle (toks : List String) : Option String :=
         | .flba size => (parseHex? raw).map (fun d => .flba d size)
         | .byteArray => none
       match pd with
-      | some pd => s!"ok {toHex (filterBytes (build n ((hashWrite pd).map UInt64.toBitVec)))}"
+      | some pd => s!"ok {toHex (filterBytes (build n ((hashWriteStaged pd).map UInt64.toBitVec)))}"
       | none => "bad-op"
     | _, _ => "bad-op"
   | ["bloom.enc", "bytearray", n, raw, offs] => some <|
     match parseNat? n, parseHex? raw, parseList? parseNat? offs with
     | some n, some d, some offs =>
-      s!"ok {toHex (filterBytes (build n ((hashWrite (.byteArray d offs)).map UInt64.toBitVec)))}"
+      s!"ok {toHex (filterBytes (build n ((hashWriteStaged (.byteArray d offs)).map UInt64.toBitVec)))}"
     | _, _, _ => "bad-op"
+  -- bloom.blocks <numValues as uint64> <bitsPerValue> -> NumSplitBlocksOf in 64-bit uint arithmetic
+  | ["bloom.blocks", n, b] => some <|
+    match parseU64? n, parseU64? b with
+    | some n, some b => s!"ok {(numSplitBlocksOfGo n b).toNat}"
+    | _, _ => "bad-op"
+  -- bloom.flush <kind> <bits> <presized bytes> <numValues> <switched 0/1> <dictionary> <pages>
+  --   -> `<size in bytes> <filter bytes>` of flushFilterPages (as repaired)
+  | ["bloom.flush", k, bits, presized, nv, sw, dict, pages] => some <|
+    match parseKind? k, parseNat? bits, parseNat? presized, parseNat? nv with
+    | some k, some bits, some presized, some nv =>
+      match parseDict? k dict, parseWPages? k pages with
+      | some d, some ps =>
+        if sw != "0" && sw != "1" then "bad-op" else
+        if !(ps.all (fun p => p.values.all (·.kindOk k)) && (d.getD []).all (·.kindOk k)) then "bad-op" else
+        let c : ChunkWrite := { kind := k, bits := bits, pages := ps, dictionary := d, switched := sw == "1",
+                                presized := presized, numValues := nv }
+        let b := flushFilter c
+        s!"ok {b.1} {toHex (filterBytes (build (b.1 / 32) (b.2.map UInt64.toBitVec)))}"
+      | _, _ => "bad-op"
+    | _, _, _, _ => "bad-op"
   -- bloom.hashread <kind> <value> -> hash of Value.hash
   | ["bloom.hashread", k, v] => some <|
     match parseKind? k with
@@ -125,19 +155,13 @@ def handle (toks : List String) : Option String :=
       | none => "bad-op"
     | none => "bad-op"
   -- bloom.file <kind|booleanfixed> <numBlocks> <pages> -> filter bytes the writer stores
-  | ["bloom.file", "booleanfixed", n, pages] => some <|
-    match parseNat? n, parsePages? .boolean pages with
-    | some n, some pages =>
-      let hs := pages.flatMap (fun p => hashWriteBoolFixed (packBits (p.map (fun v => v == .boolean true))))
-      s!"ok {toHex (filterBytes (build n (hs.map UInt64.toBitVec)))}"
-    | _, _ => "bad-op"
   | ["bloom.file", k, n, pages] => some <|
     match parseKind? k, parseNat? n with
     | some k, some n =>
       match parsePages? k pages with
       | some pages =>
         if pagesOk k pages then
-          let hs := pages.flatMap (fun p => hashWrite (pageData k p))
+          let hs := pages.flatMap (fun p => hashWriteStaged (pageData k p))
           s!"ok {toHex (filterBytes (build n (hs.map UInt64.toBitVec)))}"
         else "bad-op"
       | none => "bad-op"
